@@ -62,4 +62,5 @@ def run(ctx):
                 "equal node of the old upper level is reused; dead old children are removed exactly once.")
     nsw = eswap.run(ctx, F)
     ctx.floor("E-TABLE.swap", "interpreted level_swap situations", nsw, 80)
+    ecanon.check_id_split(ctx, F)
     ctx.not_decided = "the 'iff' over histories (gc, slot reuse, reordering); handle equality across managers"
